@@ -48,7 +48,7 @@ def shift(ctx, P, views, iters):
             if e.kind == "assign":
                 return "self.schedule.c" in e.d["value"] or "next_shift_change_date" in e.d["value"]
             return False
-        w = Walker(P, view, keep=keep, inline=lambda ev: False, loop_iters=iters)
+        w = Walker(P, view, keep=keep, inline=rules.new_helper, loop_iters=iters)
         for st in w.paths_of(cls, fn):
             if st.status == "raise":
                 continue
@@ -85,7 +85,7 @@ def off_duty(ctx, P, views, iters):
         for lit, name in (("False", "non-preemptive"), ("'resume'", "preemptive")):
             w = Walker(P, view, keep=lambda e: e.kind == "guard" or (e.kind == "call" and e.d["meth"] in ("kill_server", "interrupt_service", "append")) or
                        (e.kind == "assign" and e.d["target"].endswith(".offduty")) or e.kind in ("iter", "loopexit"),
-                       track=lambda t, f: True, inline=lambda ev: False, literal_args={"preemption": lit}, loop_iters=iters)
+                       track=lambda t, f: True, inline=rules.new_helper, literal_args={"preemption": lit}, loop_iters=iters)
             for st in w.paths_of(cls, fn):
                 if st.status == "raise":
                     continue
@@ -187,7 +187,7 @@ def interrupted_first(ctx, P, views, iters):
             if cls.name == "PSNode":
                 continue
             w = Walker(P, view, keep=lambda e: e.kind == "guard" or (e.kind == "call" and e.d["meth"] == "choose_next_customer"), track=lambda t, f: f.depth == 0,
-                       inline=lambda ev: False, loop_iters=iters)
+                       inline=rules.new_helper, loop_iters=iters)
             for st in w.paths_of(cls, fn):
                 for i, e in enumerate(st.events):
                     if e.kind == "call":
@@ -247,7 +247,7 @@ def slots(ctx, P, views, iters):
                 ctx.violation(ob, "R5.slot-count", "%s.find_number_of_slotted_services" % cls.name, "capacitated branch", "slot-count-branch", "the capacitated formula must be used iff schedule.capacitated", loc(fn))
         cls, fn = view.method("slotted_service")
         w = Walker(P, view, keep=lambda e: (e.kind == "call" and e.d["meth"] in ("get_next_slot", "find_number_of_slotted_services", "interrupt_slotted_services")) or e.kind in ("iter", "loopexit") or
-                   (e.kind == "assign" and (e.d["target"].endswith(".service_start_date"))), inline=lambda ev: False, loop_iters=iters)
+                   (e.kind == "assign" and (e.d["target"].endswith(".service_start_date"))), inline=rules.new_helper, loop_iters=iters)
         for st in w.paths_of(cls, fn):
             if st.status == "raise":
                 continue
@@ -292,7 +292,7 @@ def interrupted_flag(ctx, P, views, iters):
         n += 1
         v = unparse(node.value) if isinstance(node, ast.Assign) else "?"
         ob.seen("%s:%s" % (rules.qual(ci, fn), v))
-        if v == "True" and fn.name != "interrupt_service":
+        if v == "True" and "interrupt_service" not in rules.effective_names(P, ci, fn):
             ctx.violation(ob, "R14.flag", rules.qual(ci, fn), unparse(node), "set-outside-interrupt", "interrupted set True outside interrupt_service", loc(node))
     ctx.floor("writes of interrupted", n, 4)
     done = set()
@@ -307,7 +307,7 @@ def interrupted_flag(ctx, P, views, iters):
                     lo = listop(e)
                     return bool(lo and lo[2] == "interrupted_individuals" and lo[0] in ("ins", "rem"))
                 return e.kind == "assign" and e.d["target"].endswith(".interrupted")
-            w = Walker(P, view, keep=keep, inline=lambda ev: False, loop_iters=iters)
+            w = Walker(P, view, keep=keep, inline=rules.new_helper, loop_iters=iters)
             for st in w.paths_of(cls, fn):
                 if st.status == "raise":
                     continue
